@@ -6,7 +6,7 @@ let parse_cop (o : string) : cop =
   let rest = String.sub o 1 (String.length o - 1) in
   match o.[0] with
   | 's' -> (match String.split_on_char ':' rest with
-      | [k; v] -> CSet (str_of_hex k, str_of_hex v)
+      | [k; v] -> CSet (str_of_hex k, (if v = "N" then [] else str_of_hex v))   (* N: a nil value, empty as far as the model goes *)
       | _ -> failwith "bad set op")
   | 'g' -> CGet (str_of_hex rest)
   | 'd' -> CDel (str_of_hex rest)
